@@ -48,6 +48,7 @@ static Json::Value genC03(Rng& rng) {
   o.churnP = 0.2;
   o.kernelKillP = 0.2;
   o.emptyOnFreezeP = 0.6;
+  o.oomGroupFlipP = 0.35;
   return genKillPlan(rng, o);
 }
 
